@@ -16,6 +16,9 @@ A scenario (JSON-able, also the replay format):
   {"kind": "TIMING", "n": N, "src": {"g": adj, "dur": [..], "delay": [[u, v, ticks]..]}, "inf": INF}
 after TLC:  + "adj" (H), "adm" ([[|In|,|Out|]..]), "weight" ([num, den] | None), "nlargest".
 """
+import hashlib
+import os
+import pickle
 import re
 from collections import Counter
 
@@ -145,6 +148,17 @@ def run_family(family, n, loops=False, vals=(1, 2), inf=3, types=(1, 2), probs=(
            "INIT %s" % INIT[family], "NEXT Next"]
     cfg += ["INVARIANT %s" % i for i in invs]
     cfg += ["PROPERTY Frozen", "ACTION_CONSTRAINT Emit", "CHECK_DEADLOCK FALSE"]
+    # opt-in cache of TLC results for repeated runs on an unchanged specification (mutation
+    # campaigns): keyed by the text of the spec, the wrapper module and the config
+    cache = os.environ.get("EON_VERIF_C17_CACHE")
+    cpath = None
+    if cache:
+        with open(os.path.join(tlc.SPECS, "Percolation.tla")) as fh:
+            h = hashlib.sha1((fh.read() + "\n".join(mc) + "\n".join(cfg)).encode()).hexdigest()
+        cpath = os.path.join(cache, "c17_%s.pickle" % h)
+        if os.path.exists(cpath):
+            with open(cpath, "rb") as fh:
+                return pickle.load(fh)
     res = tlc.run_tlc("MCPercolation", "\n".join(cfg) + "\n", workers=workers, coverage=True,
                       timeout=timeout, files=[("MCPercolation.tla", "\n".join(mc) + "\n")])
     if res.violation:
@@ -161,6 +175,11 @@ def run_family(family, n, loops=False, vals=(1, 2), inf=3, types=(1, 2), probs=(
         raise MachineryFailure("GIVEN N=%d: %d scenarios passed, %d initial states" % (n, len(given), ninit))
     if ninit > 1 and res.coverage.get("Square", (0, 0))[1] == 0 and n > 2:
         raise MachineryFailure("vacuous TLC run (%s, N=%d): Square never taken" % (family, n))
+    if cpath:
+        res.stdout = ""
+        os.makedirs(cache, exist_ok=True)
+        with open(cpath, "wb") as fh:
+            pickle.dump((recs, res), fh)
     return recs, res
 
 
